@@ -3,8 +3,8 @@ import WK.Model.ReplJudge
   C01 — acknowledged channel appends survive failover and crashes.
 
   Judge (on the implementation's observations only):
-   * a receipt is given only when the leader and ≥ q voters hold the range
-     (`viol:ack-without-quorum`);
+   * a NEW acknowledgement (a range no earlier receipt covered) is given only when the
+     leader and ≥ q voters hold the range (`viol:ack-without-quorum`);
    * after every op, every client-acknowledged entry is still on every voter
      that held it, and a leader that just became writable holds it with the
      same identity.  A loss is classified by the install that caused it:
@@ -24,6 +24,13 @@ def rangeHeld (cur : Obs) (n node q : Nat) : Nat → Nat → Bool
      | some e => decide ((cur.holders n idx e.dig).length ≥ q)
      | none => false) && rangeHeld cur n node q (idx + 1) k
 
+def alreadyAcked (j : JState) (s : SObs) : Nat → Nat → Bool
+  | _, 0 => true
+  | idx, k + 1 =>
+    (match s.entry idx with
+     | some e => j.committed.any (fun r => r.client && r.idx == idx && r.dig == e.dig)
+     | none => false) && alreadyAcked j s (idx + 1) k
+
 def judge (j : JState) (op : Op) (cur : Obs) : String :=
   let fates := (j.committed.filter (·.client)).map (fun r => fateOf j.prev cur j.n op r)
   if fates.any (· == .replacedOther) then "viol:acked-entry-replaced:holders-responded"
@@ -36,7 +43,10 @@ def judge (j : JState) (op : Op) (cur : Obs) : String :=
     | .commit i _ _ _ _ _, ["ok", _, _, f, l, _] =>
       (match f.toNat?, l.toNat? with
        | some f, some l =>
-         if l < f ∨ !rangeHeld cur j.n i (cur.leader i).q f (l + 1 - f) then "viol:ack-without-quorum" else "ok"
+         if l < f then "viol:ack-without-quorum"
+         -- a cached receipt for a range acknowledged earlier is not a new acknowledgement
+         else if alreadyAcked j (cur.store i) f (l + 1 - f) then "ok"
+         else if !rangeHeld cur j.n i (cur.leader i).q f (l + 1 - f) then "viol:ack-without-quorum" else "ok"
        | _, _ => "viol:unparseable-output")
     | _, _ => "ok"
 
